@@ -1013,6 +1013,19 @@ func (pdCoord *PDCoordinator) removeNamespaceFromNode(origNSInfo *cluster.Partit
 	if !origNSInfo.IsISRQuorum() {
 		return ErrNamespaceReplicaNotEnough
 	}
+	// avoid mark removing if more than half of the replicas are unreachable,
+	// since the raft group can not handle the conf change without the quorum.
+	currentNodes, _ := pdCoord.getCurrentNodesWithRemoving()
+	aliveReplicas := 0
+	for _, replica := range origNSInfo.RaftNodes {
+		if _, ok := currentNodes[replica]; ok {
+			aliveReplicas++
+		}
+	}
+	if (len(origNSInfo.RaftNodes)-aliveReplicas)*2 > len(origNSInfo.RaftNodes) {
+		cluster.CoordLog().Infof("namespace: %v alive replica %v is not enough while removing node %v", origNSInfo.GetDesp(), aliveReplicas, nid)
+		return ErrNamespaceReplicaNotEnough
+	}
 	if origNSInfo.Removings == nil {
 		origNSInfo.Removings = make(map[string]cluster.RemovingInfo)
 	}
